@@ -604,21 +604,21 @@ Arguments held {dstate zstate} s.
 Arguments det {dstate zstate} s.
 Arguments drag_procs {dstate zstate} s.
 Arguments handlers {dstate zstate} s.
-Arguments set_transfer {dstate zstate} v s.
-Arguments set_zmodem {dstate zstate} v s.
-Arguments set_prompt {dstate zstate} v s.
-Arguments set_prompts {dstate zstate} v s.
-Arguments set_trace_on {dstate zstate} v s.
-Arguments set_interrupting {dstate zstate} v s.
-Arguments set_skip_cmd {dstate zstate} v s.
-Arguments set_cur_cmd {dstate zstate} v s.
-Arguments set_osc {dstate zstate} v s.
-Arguments set_detect_on {dstate zstate} v s.
-Arguments set_held {dstate zstate} v s.
-Arguments set_det {dstate zstate} v s.
-Arguments set_drag_procs {dstate zstate} v s.
-Arguments set_handlers {dstate zstate} v s.
-Arguments set_drag {dstate zstate} dg hd fs s.
+Arguments set_transfer {dstate zstate} v !s /.
+Arguments set_zmodem {dstate zstate} v !s /.
+Arguments set_prompt {dstate zstate} v !s /.
+Arguments set_prompts {dstate zstate} v !s /.
+Arguments set_trace_on {dstate zstate} v !s /.
+Arguments set_interrupting {dstate zstate} v !s /.
+Arguments set_skip_cmd {dstate zstate} v !s /.
+Arguments set_cur_cmd {dstate zstate} v !s /.
+Arguments set_osc {dstate zstate} v !s /.
+Arguments set_detect_on {dstate zstate} v !s /.
+Arguments set_held {dstate zstate} v !s /.
+Arguments set_det {dstate zstate} v !s /.
+Arguments set_drag_procs {dstate zstate} v !s /.
+Arguments set_handlers {dstate zstate} v !s /.
+Arguments set_drag {dstate zstate} dg hd fs !s /.
 Arguments reset_drag {dstate zstate} s.
 Arguments add_drag {dstate zstate} fs hd s.
 Arguments held_bytes {dstate zstate} s.
